@@ -62,10 +62,143 @@ def show_opt(v) -> str:
     return "None" if v is None else hx(str(v))
 
 
+def jenc(v) -> str:
+    """JSON value -> protocol tokens (object members sorted by key: canonical)."""
+    if v is None:
+        return "n"
+    if v is True:
+        return "t"
+    if v is False:
+        return "f"
+    if isinstance(v, int):
+        return "i%d" % v
+    if isinstance(v, str):
+        return "s" + hx(v)
+    if isinstance(v, (list, tuple)):
+        return " ".join(["a%d" % len(v)] + [jenc(x) for x in v])
+    if isinstance(v, dict):
+        out = ["o%d" % len(v)]
+        for k in sorted(v):
+            out += [hx(k), jenc(v[k])]
+        return " ".join(out)
+    raise TypeError(type(v))
+
+
+def jdec(s: str):
+    toks = s.split(" ")
+    pos = [0]
+
+    def go():
+        t = toks[pos[0]]
+        pos[0] += 1
+        if t == "n":
+            return None
+        if t == "t":
+            return True
+        if t == "f":
+            return False
+        if t[0] == "i":
+            return int(t[1:])
+        if t[0] == "s":
+            return unhx(t[1:])
+        if t[0] == "a":
+            return [go() for _ in range(int(t[1:]))]
+        if t[0] == "o":
+            d = {}
+            for _ in range(int(t[1:])):
+                k = unhx(toks[pos[0]])
+                pos[0] += 1
+                d[k] = go()
+            return d
+        raise ValueError(t)
+    return go()
+
+
+def real_registry_get(files: dict):
+    """registry.get on a directory holding exactly `files` (name -> document)."""
+    import json
+    import shutil
+    import tempfile
+    from pathlib import Path
+    tmp = tempfile.mkdtemp(prefix="svreg")
+    name = "t" + os.path.basename(tmp)
+    try:
+        d = os.path.join(tmp, name + "_registry")
+        os.makedirs(d)
+        for fn, doc in files.items():
+            with open(os.path.join(d, fn), "w", encoding="utf-8") as fp:
+                json.dump(doc, fp)
+        old = registry.files
+        registry.files = lambda pkg: Path(tmp)
+        try:
+            return "ok " + jenc(registry.get(name))
+        except Exception:  # noqa: BLE001
+            return "exception"
+        finally:
+            registry.files = old
+            registry._registry.pop(name, None)
+    finally:
+        shutil.rmtree(tmp, ignore_errors=True)
+
+
+_synthetic = {"active": False, "entries": [], "saved": None}
+
+
+def _synthetic_install(entries):
+    """Make the library use `entries` as its bank registry (indexes rebuilt by the library's own
+    build_index calls); the bundled one is kept for restoring."""
+    if _synthetic["saved"] is None:
+        _synthetic["saved"] = {k: registry._registry[k] for k in ("bank", "bank_code", "bic", "country")}
+    registry.save("bank", entries)
+    registry.build_index("bank", "country", key="country_code", accumulate=True)
+    registry.build_index("bank", index_name="bic", key="bic", accumulate=True)
+    registry.build_index("bank", index_name="bank_code", key=("country_code", "bank_code"), accumulate=True)
+
+
+def _synthetic_restore():
+    if _synthetic["saved"] is not None:
+        for k, v in _synthetic["saved"].items():
+            registry._registry[k] = v
+        _synthetic["saved"] = None
+    _synthetic["active"] = False
+
+
 def real(f: list[str]) -> str:
     op = f[0]
+    if op == "reg.synthetic":          # reg.reset on the model side; start collecting entries
+        _synthetic["active"] = True
+        _synthetic["entries"] = []
+        _synthetic_install([])
+        return "ok"
+    if op == "reg.bundled":            # back to the bundled registry (model: reg.reset)
+        _synthetic_restore()
+        return "ok"
+    if op == "reg.add" and _synthetic["active"]:
+        e = {"country_code": unhx(f[1]), "bank_code": unhx(f[2]),
+             "bic": None if f[3] == "null" else unhx(f[3]), "primary": pb(f[4]),
+             "name": unhx(f[6]), "short_name": unhx(f[7])}
+        if f[5] != "absent":
+            e["checksum_algo"] = None if f[5] == "null" else unhx(f[5])
+        _synthetic["entries"].append(e)
+        _synthetic_install(list(_synthetic["entries"]))
+        return "ok"
     if op in ("reg.reset", "reg.add"):
         return "ok"
+    if op == "json.merge":
+        import copy
+        l, r = jdec(f[1]), jdec(f[2])
+        l0, r0 = copy.deepcopy(l), copy.deepcopy(r)
+        out = registry.merge_dicts(l, r)
+        if l != l0 or r != r0:
+            return "ok INPUT-MODIFIED"
+        return "ok " + jenc(out)
+    if op == "json.parse_v2":
+        try:
+            return "ok " + jenc(registry.parse_v2(jdec(f[1])))
+        except Exception:  # noqa: BLE001
+            return "exception"
+    if op == "registry.get":
+        return real_registry_get({unhx(x.split("=")[0]): jdec(x.split("=")[1]) for x in f[1:]})
     if op == "clean":
         return "ok " + hx(common.clean(unhx(f[1])))
     if op == "iban.new":
